@@ -120,7 +120,7 @@ def run_batch(D, base, pend, ctl, rec, uid):
     t0 = int(time.time())
     try:
         p = subprocess.run([ctl, rec], input=''.join(lines).encode(), stdout=subprocess.PIPE,
-                           stderr=subprocess.PIPE, timeout=70 * len(pend))
+                           stderr=subprocess.PIPE, timeout=25 * len(pend) + 60)
     except subprocess.TimeoutExpired:
         sys.stderr.write('c13_ctl.py: helper timed out on a batch starting at %d\n' % pend[0][0])
         sys.exit(2)
@@ -147,18 +147,29 @@ def judge_case(D, d, idx, row, sc, sz, st, wstatus, t0, t1, uid):
     D.desc('row %s (OFILE=%s EFILE=%s MAIL-OUT=%d MAIL-ERR=%d) script %s (O = %d bytes to stdout, E = %d bytes to '
            'stderr, | = echsx polls, X = exit with wait status %d)' % (row['name'], row['out'], row['err'], row['mo'],
                                                                         row['me'], sc, sz[0], sz[1], st[0]))
+    # shape: row, whether the exit shares a poll with the last write, largest chunk in play
     shape = '%s/%s' % (row['name'], 'batched-exit' if not sc.endswith('|X') and len(sc) > 1 else 'polled-exit')
-    szc = lambda n: {1: '1', 4096: '4k', 65536: '64k'}[n]
-    shape += '/o%dx%s,e%dx%s' % (no, szc(sz[0]), ne, szc(sz[1]))
+    big = max([sz[0]] * bool(no) + [sz[1]] * bool(ne) + [0])
+    shape += '/' + {0: 'nochunk', 1: 'c1', 4096: 'c4k', 65536: 'c64k'}[big]
     if wstatus is None:
         D.viol('harness/no-result', 'helper printed no result for this case')
         return
     log = (rd(os.path.join(d, 'ctl.log')) or b'').decode('latin-1').split('\n')
     if wstatus & 0x7f:
+        # a run that was killed never reached its own clean-up
+        for e in shim_events(rd(os.path.join(d, 'shim.log'))):
+            if e.startswith('mkstemp fd=') and not e.startswith('mkstemp fd=-'):
+                try:
+                    os.unlink(e.split('path=', 1)[1])
+                except OSError:
+                    pass
+    if wstatus & 0x7f == 9:
+        D.viol('hang/%s' % shape, 'echsx made no end of the schedule (killed by the watchdog); the script got as far as %r' % (
+            [l for l in log if l.startswith('write to')] or 'blocked in a write nobody reads',))
+        return
+    if wstatus & 0x7f:
         D.viol('echsx-died/%s' % shape, 'echsx itself was killed by signal %d; stderr: %r' % (
             wstatus & 0x7f, (rd(os.path.join(d, 'echsx.err')) or b'')[-300:]))
-        if wstatus & 0x7f == 9:
-            return
     fin = [l for l in log if l.startswith('polls ')]
     if not (wstatus & 0x7f) and not (fin and fin[0].endswith("rest `X' exited 1 fed 1")):
         D.viol('harness/script-incomplete', 'the script was not played to its end: %r' % (fin or log[-3:],))
